@@ -4,6 +4,7 @@
 //!   harness replay                              read input encodings from stdin, run them, print cases
 mod civil;
 mod common;
+mod cron;
 mod gens;
 mod arith;
 mod c01;
@@ -16,6 +17,9 @@ fn run_input(inp: &Input) -> Obs {
         return o;
     }
     if let Some(o) = arith::run(inp) {
+        return o;
+    }
+    if let Some(o) = cron::run(inp) {
         return o;
     }
     panic!("unknown op {}", inp.op);
@@ -44,6 +48,8 @@ fn main() {
                 "C09" => gens::gen_c09(&mut g, tier),
                 "C10" => gens::gen_c10(&mut g, tier),
                 "C15" => gens::gen_c15(&mut g, tier),
+                "C16" => cron::gen_c16(&mut g, tier),
+                "C17" => cron::gen_c17(&mut g, tier),
                 _ => {
                     eprintln!("unknown property {}", prop);
                     std::process::exit(2);
